@@ -137,6 +137,12 @@ def runSched (j : Json) : Json :=
         usageOf (σ.led.get r i).usage t == usageOf (σ.led.get (sel.headD 0) i).usage t))))
   let fwds := (List.range e.tasks.size).filter (fun t => fwdEffB e t && (σ.tst t).scheduled && (σ.tst t).forward)
   let depPairs := fwds.flatMap (fun t => ((e.taskD t).allDeps.filter (fun dp => (e.taskD dp.target).leaf)).map (fun dp => (t, dp)))
+  let depPairsAll := fwds.flatMap (fun t => (e.taskD t).allDeps.map (fun dp => (t, dp)))
+  let depFailAll := depPairsAll.filter (fun (td : Nat × Dep) =>
+    let dt := if td.2.onstart then (σ.tst td.2.target).start else (σ.tst td.2.target).stop
+    match dt, (σ.tst td.1).start with
+    | some d, some v => !((σ.tst td.2.target).scheduled && decide (d + td.2.gap ≤ v))
+    | _, _ => !(σ.tst td.2.target).scheduled)
   let depFail := depPairs.filter (fun (td : Nat × Dep) =>
     let dt := if td.2.onstart then (σ.tst td.2.target).start else (σ.tst td.2.target).stop
     match dt, (σ.tst td.1).start with
@@ -184,7 +190,8 @@ def runSched (j : Json) : Json :=
                          ("effort_exact_fail", Json.num (JsonNumber.fromNat effortFail.length)),
                          ("teams_scheduled", Json.num (JsonNumber.fromNat teams.length)), ("team_exact_fail", Json.num (JsonNumber.fromNat teamFail.length)),
                          ("fwd_scheduled", Json.num (JsonNumber.fromNat fwds.length)), ("dep_edges", Json.num (JsonNumber.fromNat depPairs.length)),
-                         ("dep_fail", Json.num (JsonNumber.fromNat depFail.length))]
+                         ("dep_fail", Json.num (JsonNumber.fromNat depFail.length)),
+                         ("dep_edges_all", Json.num (JsonNumber.fromNat depPairsAll.length)), ("dep_all_fail", Json.num (JsonNumber.fromNat depFailAll.length))]
   Json.mkObj [("end", Json.num (JsonNumber.fromInt (Elab.abs p e.stop))), ("wf", Json.bool (wfCheck e && treeCheck e)), ("size", Json.num (JsonNumber.fromInt e.size)), ("thm", thm),
               ("tasks", Json.arr tasks.toArray), ("ledger", Json.arr led.toArray), ("counters", Json.arr cnt.toArray),
               ("warnings", Json.arr (σ.warnings.map Json.str).toArray)]
